@@ -43,7 +43,7 @@ m = {
     "setup_cmd": "./setup.sh",
     "hooks": {
         "guard": "verif",
-        "enable": "cd /verif/sim && GOFLAGS=-mod=mod GOPROXY=off GOSUMDB=off GOTOOLCHAIN=local go1.26.8 test -c -tags verif ./props/<id>/   (Go build tag 'verif'; hook files are /repo/internal/*/verif_hooks.go)",
+        "enable": "cd /verif/sim && GOFLAGS=-mod=mod GOPROXY=off GOSUMDB=off GOTOOLCHAIN=local go1.26.8 test -c -tags verif ./props/<id>/   (Go build tag 'verif'; hook files are /repo/internal/*/verif_hooks*.go and the seam package /repo/internal/verifyield, whose call sites exist only in the scratch copy made by tools/yieldify.py)",
         "baseline_off_cmd": "cd /repo && GOFLAGS=-mod=mod GOPROXY=off GOSUMDB=off go test -json -vet=off -count=1 -timeout 25m ./...",
         "source_commits": hook_commits,
         "add_only": True,
